@@ -102,6 +102,8 @@ func RunRestart(e *Env) {
 
 func runRestartCase(e *Env, idx int, c RCase) {
 	R := e.R
+	caseStart := time.Now()
+	_ = caseStart
 	bk, B := backoffCfg(c.Backoff)
 	md := metadata.Pairs("verif-general", "g-"+strconv.Itoa(idx), "verif-multi", "a", "verif-multi", "b")
 	per := func(id uint32) metadata.MD { return metadata.Pairs("verif-node", strconv.Itoa(int(id))) }
@@ -170,8 +172,13 @@ func runRestartCase(e *Env, idx int, c RCase) {
 						sig = "reply-waits-for-backoff"
 					}
 				}
-				R.Violate(sig, fmt.Sprintf("the restarted server handled and answered the probe, but the call ended with %v after 3 s (back-off %s, %s); parked library goroutines: %v", err, c.Backoff, why, parked),
-					map[string]any{"case": c, "node_index": i, "parked": parked})
+				dd := map[string]any{"case": c, "node_index": i, "parked": parked, "stacks": h.LibStacks(h.Dump(), 0)}
+				if e.Hooks != nil {
+					dd["hook_trace(diagnosis)"] = e.Hooks.NodeTrace(cl.IDs[i])
+					dd["per_message_events(diagnosis)"] = e.Hooks.MsgEvents(cl.IDs[i])
+					dd["now_ms"] = time.Since(caseStart).Milliseconds()
+				}
+				R.Violate(sig, fmt.Sprintf("the restarted server handled and answered the probe, but the call ended with %v (back-off %s, %s); parked library goroutines: %v", err, c.Backoff, why, parked), dd)
 				return false
 			}
 			time.Sleep(30 * time.Millisecond)
